@@ -297,7 +297,7 @@ class Program(object):
                 cls._REF = (None, {})
         return cls._REF
 
-    STD_LAMBDA_LOOPS = ("std::for_each", "std::any_of", "std::all_of", "std::none_of", "std::find_if", "std::find_if_not", "std::count_if", "std::transform", "std::generate_n", "std::remove_if")
+    STD_LAMBDA_LOOPS = ("std::for_each", "std::any_of", "std::all_of", "std::none_of", "std::find_if", "std::find_if_not", "std::count_if", "std::transform", "std::generate_n", "std::remove_if", "std::equal", "std::mismatch", "std::search")
 
     def expandable(self, caller, ev, g, root=None):
         """g is a helper the code of `caller` was moved into after the rules were written: a library function that does not exist in
